@@ -52,8 +52,8 @@ def run(ctx):
     try:
         ba_t, _ = eval_method(ctx.repo, COMMON, "LiteDRAMNativePort", "get_bank_address", [Sym("bank_bits"), Sym("cba_shift")])
         rca_t, _ = eval_method(ctx.repo, COMMON, "LiteDRAMNativePort", "get_row_column_address", [Sym("bank_bits"), Sym("rca_bits"), Sym("cba_shift")])
-        row_t, _ = eval_method(ctx.repo, BMMOD, "_AddressSlicer", "row", [Sym("address")])
-        col_t, _ = eval_method(ctx.repo, BMMOD, "_AddressSlicer", "col", [Sym("address")])
+        row_t, _ = eval_method(ctx.repo, BMMOD, "_AddressSlicer", "row", [Sym("address")], init=True)
+        col_t, _ = eval_method(ctx.repo, BMMOD, "_AddressSlicer", "col", [Sym("address")], init=True)
     except KeyError as e:
         ob1.unknown("address helper vanished: %s" % e)
         return
@@ -94,7 +94,7 @@ def run(ctx):
         return
     sargs = [key(a) for a in sl[0].args]
     ob3.instance("_AddressSlicer arguments", sargs)
-    if sargs != ["settings.geom.colbits", "address_align"]:
+    if sorted(sargs) != sorted(["settings.geom.colbits", "address_align"]):
         ob3.refute("slicer-args", "_AddressSlicer is built with %s, expected (settings.geom.colbits, address_align)" % sargs, sl[0].loc)
     # A10 OR
     a10 = False
@@ -161,7 +161,10 @@ def run(ctx):
             rca = bitvec(rca_t, {"cba_shift": cba2, "bank_bits": bank_bits, "rca_bits": rca_bits}, width)
             bank_addr_w = rowbits + colbits + rank - align
             rca_ext = (rca + [ZERO] * bank_addr_w)[:bank_addr_w]
+            # the slicer's constructor parameters take the values of the actual arguments BankMachine passes (bound by formal name)
             envs = {"self.colbits": colbits, "self.address_align": align}
+            for fname, actual in sl[0].kwargs.items():
+                envs["init." + fname] = ieval(actual, {"settings.geom.colbits": colbits, "address_align": align})
             row = bitvec(row_t, envs, lambda n: bank_addr_w)
             col = bitvec(col_t, envs, lambda n: bank_addr_w)
         except Unresolved as e:
